@@ -271,7 +271,12 @@ func (w *genWorld) randomOps(n int) {
 	for i := 0; i < n; i++ {
 		si := w.rng.Intn(len(w.stakers))
 		oi := w.rng.Intn(len(c.Operators))
-		switch w.rng.Pick(3, 4, 4, 1, 4, 1) {
+		switch w.rng.Pick(3, 4, 4, 1, 4, 1, 2) {
+		case 6:
+			// opt into the second AVS and out again, in the same block or one block later
+			same := w.rng.Chance(1, 2)
+			eIn, eOut := w.optInOut(oi, same)
+			w.env.Outcome(fmt.Sprintf("op:optinout:same=%v:%s/%s", same, genErrClass(eIn), genErrClass(eOut)))
 		case 0:
 			amt := int64(1+w.rng.Intn(50)) * 1000000
 			err := w.deposit(si, amt)
@@ -325,6 +330,7 @@ func (w *genWorld) randomOps(n int) {
 			w.env.Outcome("op:replacekey:" + genErrClass(w.replaceKey(oi)))
 		case 4:
 			d := []time.Duration{time.Second, time.Minute, 31 * time.Minute, time.Hour + time.Second}[w.rng.Intn(4)]
+			w.note("next block +%s", d)
 			if r := c.EndAndBegin(d); r.Halt != "" {
 				w.env.Violate("C18.halt", "halt", "block processing panicked: "+r.Halt, w.hist)
 				return
@@ -398,6 +404,18 @@ func domGenesis(env *Env) error {
 		c.EndAndBegin(time.Hour + time.Second)
 		_ = w.replaceKey(2)
 		_ = w.replaceKey(0)
+		w.runOne(0, true, 4)
+		// directed 3: opt-in and opt-out of a second AVS in ONE block (equal heights in the stored OptedInfo, which is
+		// never deleted), and one block apart as control: the export must still pass the operator module's Validate
+		w = newGenWorld(env, rng, env.Report.Seed*1000+903)
+		c = w.c
+		c.EndAndBegin(time.Minute)
+		eIn, eOut := w.optInOut(0, true)
+		eIn2, eOut2 := w.optInOut(1, false)
+		env.Outcome(fmt.Sprintf("directed:D3 same-block optin/out=%s/%s next-block=%s/%s", genErrClass(eIn), genErrClass(eOut), genErrClass(eIn2), genErrClass(eOut2)))
+		if eIn != nil || eOut != nil || eIn2 != nil || eOut2 != nil {
+			env.Note("directed-D3-setup-failed")
+		}
 		w.runOne(0, true, 4)
 	}
 	for hi := 0; hi < n; hi++ {
